@@ -10,6 +10,7 @@ sys.path.insert(0, os.path.dirname(os.path.abspath(__file__)))
 
 FRAGMENTS = [
     ("Coeff", "gen_coeff"),
+    ("FPStencil", "gen_fp"),
 ]
 
 
